@@ -294,6 +294,10 @@ def run(ctx):
     r3(ctx); r4(ctx); r4_vartrail(ctx)
     import tbl
     tbl.rule_representations(ctx, 'C02.R5')
+    # R6: the numbers of every emitted table fit the element type flex declared for it (core variants + language probes)
+    import variants as _variants
+    lang = [x[5] for x in tbl.language_results(ctx).values() if x[5] is not None and x[5].src]
+    tbl.rule_value_ranges(ctx, 'C02.R6', [v for v in ctx.core() if v.src and not (v.crashed or v.refused)] + lang)
     for lang, (k, n) in cov.items():
         rep.require(n > 300, '%s skeleton model has only %d text chunks' % (lang, n))
     rep.require(cov['cpp'][0] >= 0.93 * cov['cpp'][1], 'core variants keep only %d of %d cpp skeleton chunks live' % cov['cpp'])
@@ -302,6 +306,7 @@ def run(ctx):
     rep.floor('C02.R3', 8, '4 macros x 2 sibling skeletons')
     rep.floor('C02.R4', 13, 'reference table of refusals')
     rep.floor('C02.R5', 10, 'language probes, with and without REJECT')
+    rep.floor('C02.R6', 800, 'constant tables of the core variants and the language probes')
     rep.undecided += ['behavioural equality of the scanners across table representations, APIs and back ends (run-time quantity)',
                       'the go back end is analysed but its ill-formed outputs are notes, not violations (not a documented back end in the property)']
     rep.assumptions += ['clang 14 front end (gnu11 / gnu++17, glibc headers) as the well-formedness oracle',
